@@ -3,6 +3,7 @@
    with the Python statements it was made from on every run (C13). -/
 import DateutilVerif.Base.Wire
 import DateutilVerif.Generated.RRuleStrKernels
+import DateutilVerif.Ops.RRuleStr
 
 namespace Ops.RRuleStrGen
 open Wire StrPy
@@ -60,10 +61,54 @@ def handle (op : String) (args : List String) : Option String :=
       let d ← parseDict? d
       let ps ← parseStrList? ps
       some (Py.showR (fun (r : Option Zone × Bool) => s!"{showZone r.1} {showBool r.2}") (Gen.rrsDateParms ps d k))
+  | "rrsgen.datevalue", [kind, d, ps, h] => do
+      -- the WHOLE translated `_parse_date_value`; `parser.parse` = the compact reader (`…Z` carries its own zone), anything else ValueError
+      let k ← parseKind? kind
+      let d ← parseDict? d
+      let ps ← parseStrList? ps
+      let v ← parseHexString? h
+      let parse : Str → Py.R (Str × Option Zone) := fun t =>
+        match RRuleStr.parseCompact t with
+        | .compact _ _ _ _ _ _ z => .ok (t, if z then some .fromText else none)
+        | .other _ => .error .ValueError
+      some (Py.showR (fun (r : List (Str × Option Zone)) => "[" ++ ",".intercalate (r.map (fun p => hexL p.1 ++ "/" ++ showZone p.2)) ++ "]")
+        (Gen.rrsParseDateValue parse v.toList ps d k))
+  | "rrsgen.dispatch", [ls] => do
+      -- the translated body of `for line in lines:` folded over the given lines, from empty lists and no start
+      let lines ← parseStrList? ls
+      let showDV := fun (d : RRuleStr.DateV) => hexL d.1 ++ "|" ++ hexL (RRuleStr.intercalate [';'] d.2.1)
+      some (Py.showR (fun (a : RRuleStr.Acc) =>
+          s!"{showStrList a.rrulevals} {showStrList a.rdatevals} {showStrList a.exrulevals} [{",".intercalate (a.exdatevals.map showDV)}] " ++
+          (match a.dtstart with | some d => showDV d | none => "-"))
+        (lines.foldlM (Gen.rrsStepLine {}) {}))
   | "rrsgen.attach", [a, b] => do
       let a ← parseZone? a
       let b ← parseZone? b
       some (Py.showR showZone (Gen.rrsAttach a b))
+  | "rrsgen.str", [dt, freq, interval, wkst, count, untl, bysetpos, bymonth, bymonthday, byyearday, byeaster, byweekno,
+                   byweekday, byhour, byminute, bysecond, fwd] => do
+      -- the same request as `rrs.str`, answered by the SOURCE TRANSLATION of `rrule.__str__`
+      let x : RRuleStr.StrIn := {
+        fwd := ← parseInt? fwd,
+        dtstart := ← Ops.RRuleStr.six? dt, freq := ← freq.toNat?, interval := ← parseInt? interval, wkst := ← parseInt? wkst,
+        count := ← parseOptInt? count, untilV := ← Ops.RRuleStr.six? untl,
+        orig := { bysetpos := ← Ops.RRuleStr.optList? bysetpos, bymonth := ← Ops.RRuleStr.optList? bymonth,
+                  bymonthday := ← Ops.RRuleStr.optList? bymonthday, byyearday := ← Ops.RRuleStr.optList? byyearday,
+                  byeaster := ← Ops.RRuleStr.optList? byeaster, byweekno := ← Ops.RRuleStr.optList? byweekno,
+                  byweekday := ← Ops.RRuleStr.parseWDays? byweekday, byhour := ← Ops.RRuleStr.optList? byhour,
+                  byminute := ← Ops.RRuleStr.optList? byminute, bysecond := ← Ops.RRuleStr.optList? bysecond } }
+      some ("ok " ++ hexL (Gen.rruleStr x))
+  | "rrsgen.line", [h] => do
+      -- the SOURCE TRANSLATION of `_parse_rfc_rrule` on one line (as `_parse_rfc` hands it over: upper-cased), printed like `rrs.parse`
+      let s ← parseHexString? h
+      some (Py.showR (fun a => Ops.RRuleStr.showParsed false (fun _ => none) (.rule a none false)) (Gen.rrsParseRule {} s.toList))
+  | "rrsgen.call", [o, h] => do
+      -- `rrs.parse` through the translated `_rrulestr.__call__`
+      let s ← parseHexString? h
+      let f := o.toList.map (· == '1')
+      let opts : RRuleStr.Opts := { unfold := f.getD 0 false, forceset := f.getD 1 false, compatible := f.getD 2 false,
+                                    ignoretz := f.getD 4 false, tzinfos := f.getD 5 false, cache := f.getD 6 false }
+      some (Py.showR (Ops.RRuleStr.showParsed (f.getD 3 false) (RRuleStr.tzidOf s.toList opts)) (Gen.rrsCall s.toList opts (f.getD 3 false)))
   | _, _ => none
 
 end Ops.RRuleStrGen
